@@ -329,6 +329,36 @@ def l2_scenarios(draw):
     actions = [dict(a, v=a['v'] % 3) if a['a'] in ('create', 'edit_spec') else a for a in actions]
     if draw(st.booleans()):
         actions.insert(draw(st.integers(0, len(actions))), {'a': 'restart', 'how': 'stop', 'down': 1.0, 'dt': 0.0})
+    if draw(st.integers(0, 3)) == 0:
+        # Sub-handlers with their own criteria: they are judged like their parent (field changes only under update/field
+        # parents; the current value under create/resume parents), whatever cause the parent happens to be invoked for -
+        # e.g. a resume parent invoked within an update after a downtime.
+        pkind = draw(st.sampled_from(['resume', 'resume', 'create', 'update']))
+        subs = []
+        for j, fld in enumerate(['spec.f', 'spec.g']):
+            sub = {'id': f's{j}', 'script': [], 'duration': 0, 'field': fld}
+            if draw(st.integers(0, 3)) == 0:
+                sub['labels'] = {'on': draw(st.sampled_from(['yes', PRESENT, ABSENT]))}
+            subs.append(sub)
+        if draw(st.booleans()):
+            subs.append({'id': 's2', 'script': [], 'duration': 0})
+        handlers = [{'kind': pkind, 'id': 'p0', 'script': [], 'duration': 0, 'subs': subs}]
+        if draw(st.booleans()):
+            handlers.append({'kind': draw(st.sampled_from(['update', 'create', 'event'])), 'id': 'x1', 'script': [], 'duration': 0})
+        edits = st.one_of(
+            st.builds(lambda fld, v, dt: {'a': 'edit_field', 'obj': 0, 'path': ['spec', fld], 'v': v, 'dt': dt},
+                      st.sampled_from(['f', 'g', 'h']), st.integers(1, 4), dts),
+            st.builds(lambda v, dt: {'a': 'label', 'obj': 0, 'v': v, 'dt': dt}, st.sampled_from(['yes', 'no']), dts),
+            st.builds(lambda dt: {'a': 'advance', 'dt': dt}, dts))
+        pre = [{'a': 'create', 'obj': 0, 'v': 1, 'dt': 0.0}]
+        if draw(st.booleans()):
+            pre.append({'a': 'edit_field', 'obj': 0, 'path': ['spec', 'g'], 'v': 1, 'dt': 0.0})
+        actions = [{'a': 'advance', 'dt': 3.0}] + draw(st.lists(edits, max_size=3))
+        # a downtime with an edit in it: the first cycle of the next process is an update (or nothing) with the resuming mixed in
+        actions += [{'a': 'downtime', 'how': 'stop', 'down': 1.0, 'dt': 0.0, 'edits': draw(st.lists(edits, min_size=0, max_size=2))}]
+        actions += draw(st.lists(edits, max_size=3))
+        return {'mode': 'L2', 'family': 'subs', 'seed': draw(st.integers(0, 9999)), 'spec': {'handlers': handlers, 'lifecycle': 'all_at_once'},
+                'cluster': {}, 'pre': pre, 'actions': actions}
     if draw(st.integers(0, 2)) == 0:
         # Aim at the cause-kind criterion of resume handlers: a pre-existing object that starts to satisfy the
         # resume handler's filter only later, next to other (matching) handlers.
@@ -375,6 +405,38 @@ def run_l2(sc, res):
             res.fail('C15/livelock', str(e))
         sim = run.sim
         handlers = {h['id']: h for h in sc['spec']['handlers']}
+        subs_of = {h['id']: h.get('subs') or [] for h in sc['spec']['handlers']}
+        for pid, subs in subs_of.items():
+            for sub in subs:
+                handlers[f'{pid}/{sub["id"]}'] = dict(sub, kind='sub', parent=handlers[pid]['kind'])
+        # (3) sub-handlers: whenever the parent has run, exactly those of its sub-handlers whose criteria hold are run - judged
+        # as the parent is judged (docs/filters.rst: the field must have *changed* only for update/field handlers and theirs)
+        if sc.get('family') == 'subs':
+            calls = [c for c in sim.trace if c.get('k') == 'call']
+            for c in calls:
+                if c['hid'] not in subs_of or not subs_of[c['hid']] or c.get('outcome') != 'ok':
+                    continue
+                ph = handlers[c['hid']]
+                view = c['view']
+                labels = view['metadata'].get('labels') or {}
+                for sub in subs_of[c['hid']]:
+                    want = l2_expected(sub, {'labels': labels})
+                    if want and sub.get('field'):
+                        key = sub['field'].split('.')[1]
+                        if ph['kind'] == 'update':
+                            o, n = ((c.get('old') or {}).get('spec') or {}), ((c.get('new') or {}).get('spec') or {})
+                            want = o.get(key) != n.get(key)
+                        else:
+                            want = key in (view.get('spec') or {})
+                    sid = f'{c["hid"]}/{sub["id"]}'
+                    nxt = min([x['seq'] for x in calls if x['hid'] == c['hid'] and x['uid'] == c['uid'] and x['seq'] > c['seq']], default=1e18)
+                    got = any(x['hid'] == sid and x['uid'] == c['uid'] and x['inc'] == c['inc'] and c['seq'] < x['seq'] < nxt for x in calls)
+                    if want != got:
+                        res.fail('C15/L2-sub-handler-selection',
+                                 f'{c["hid"]} ({ph["kind"]} handler, invoked for reason {c["reason"]}) ran on {c["name"]} rv={c["rv"]} '
+                                 f'spec={view.get("spec")} labels={labels} old={(c.get("old") or {}).get("spec")}: its sub-handler {sub} was '
+                                 f'{"run" if got else "not run"}, its criteria {"hold" if want else "do not hold"}')
+                    res.label('L2-sub-judged', 'L2-sub-under-' + ph['kind'] + ('-in-update' if 'update' in str(c['reason']).lower() and ph['kind'] != 'update' else ''))
         # (1) every invocation satisfies the handler's own label/when/field-value criteria on the view it got
         for c in sim.trace:
             if c.get('k') != 'call' or c['hid'] not in handlers:
